@@ -255,6 +255,7 @@ static uint64_t run_scenario(const Scenario& sc, Ctx& c, bool allVariants = true
          return h;
       }
    }
+   if(c.wantSample() && !sc.ups.empty()) c.sample("{\"scenario\":" + jstr(sc.str()) + ",\"det\":" + jstr(det.get_str()) + "}");
    auto R = rhs_set(n);
    // one factor object per scenario (the solver reuses its factor object in the same way); it is re-loaded and
    // the updates are re-applied before every solve that prepares an update (those leave an update vector behind)
